@@ -1,4 +1,5 @@
 mod drivers;
+mod logcap;
 mod world;
 
 use std::io::Write;
@@ -49,6 +50,7 @@ fn smoke(backend: &str) {
 }
 
 fn main() {
+    logcap::install();
     let args: Vec<String> = std::env::args().collect();
     match args.get(1).map(|s| s.as_str()) {
         Some("smoke") => smoke(args.get(2).map(|s| s.as_str()).unwrap_or("mem")),
@@ -76,6 +78,7 @@ fn main() {
                 restarts: get("restarts", "0") == "1",
                 observers: get("observers", "0") == "1",
                 replay_welcomes: get("wreplay", "0") == "1",
+                junk: get("junk", "0") == "1",
             };
             let f = std::fs::File::create(out).expect("create out");
             let mut r = Recorder { out: Box::new(std::io::BufWriter::new(f)), i: 0 };
